@@ -88,6 +88,13 @@ func VerifInstallWriter(e *actor.Engine, addr string, pipe *VerifPipe) *actor.PI
 	return e.SpawnProc(verifWriterProc{w})
 }
 
+// VerifInstallDialingWriter registers the real streamWriter for addr as it is while its first
+// dial is still being retried: in the registry, inbox open, no stream and no connection yet.
+func VerifInstallDialingWriter(e *actor.Engine, addr string) *actor.PID {
+	w := newStreamWriter(e, nil, addr, nil, 0).(*streamWriter)
+	return e.SpawnProc(verifWriterProc{w})
+}
+
 // VerifDeliver wraps an outbound message the way Remote.Send does.
 func VerifDeliver(target, sender *actor.PID, msg any) actor.Envelope {
 	return actor.Envelope{Msg: &streamDeliver{target: target, sender: sender, msg: msg}}
